@@ -18,6 +18,7 @@ import StepModel.ComplexBuildDistinct
 import StepModel.ComplexReset
 import StepModel.ComplexCombo
 import StepModel.ComplexSim
+import StepModel.ComplexTreeKeep
 /-!
 # C08 — complex instances are accepted exactly when the supertype constraints allow them
 
@@ -609,6 +610,19 @@ stream of the check; the seeded C08-e2 (`reset()` returning early) breaks `C08_r
 theorem C08_request_independent (fuel : Nat) (combo : Bool) (head : Tree) (t : ST) (ht : trV (skel t) = head) (es : Ents) :
     matchesAt fuel combo head (resetST t) es = matchesList fuel combo head es :=
   matches_after_reset fuel combo head t ht es
+
+/-- "`t` is a state of that hierarchy" is what every step of the matcher maintains: from **any** state, `matchNonORs` and
+`matchORs` return a state with the same tree, and `unmarkAll`, `acceptChoice`, `tryNext` even the same skeleton (tree and
+`viable` values) — so the hypothesis `trV (skel t) = head` of `C08_request_independent` holds for whatever the calls before
+left. -/
+theorem C08_states_keep_the_tree (f : Nat) (t : ST) (es : Ents) :
+    (∀ r, matchNonORs f t es = .ok r → trV (skel r.1) = trV (skel t)) ∧
+    (∀ r, matchORs f t es = .ok r → trV (skel r.1) = trV (skel t)) ∧
+    (∀ r, unmarkAll f t es = .ok r → skel r.1 = skel t) ∧
+    (∀ r, acceptChoice f t es = .ok r → skel r.1 = skel t) ∧
+    (∀ r, tryNext f t es = .ok r → smallOr (skel t) → skel r.1 = skel t) :=
+  ⟨fun r h => (nonors_tree f).1 t es r h, fun r h => (ors_tree f).1 t es r h, fun r h => (unmark_skel f).1 t es r h,
+   fun r h => (accept_skel f).1 t es r h, fun r h hs => ((trynext_val f).1 t es r h hs).1⟩
 
 /-- … more generally the matcher cannot tell apart two states that agree up to the fields it never reads before writing -/
 theorem C08_matches_ignores_unwritten_choice1 (fuel : Nat) (combo : Bool) (head : Tree) (h0 h0' : ST) (es : Ents)
